@@ -10,6 +10,7 @@ import GohbaseVerif.Drive.C16
 import GohbaseVerif.Drive.C17
 import GohbaseVerif.Drive.Conn
 import GohbaseVerif.Drive.Sim
+import GohbaseVerif.Drive.ConnCache
 /-!
 Line-protocol driver: one test case per line, `<model> <op> <args…>`; one reply per line:
 `OK tags=…` | `DIFF …` (model ≠ implementation) | `SPEC …` (implementation violates the Lean
@@ -39,6 +40,8 @@ def dispatch (line : String) : String :=
   | "c09" :: rest => Drive.Sim.handle "c09" rest
   | "c13" :: rest => Drive.Sim.handle "c13" rest
   | "c19" :: rest => Drive.Sim.handle "c19" rest
+  | "cc" :: rest => Drive.ConnCache.handle rest
+  | "ri" :: rest => Drive.ConnCache.handleRI rest
   | _ => "BAD model"
 
 partial def loop (hin hout : IO.FS.Stream) : IO Unit := do
